@@ -422,6 +422,44 @@ def ob_mixed(gridname, name, primal, dual, seg):
     return held("relative difference %.2e, %s" % (r["relative_error"], r["shape"]))
 
 
+def replay_position(gridname):
+    """Native: "for all grids" - the coefficients of the dual / BC / RBC functions in the barycentric spaces (dof_transformation) and the mixed mass matrices
+    depend on differences of vertex coordinates only: on the grid translated by (8.3e5, -6.1e5, 3.7e5) they equal those of the original up to the rounding of the
+    translated coordinates (1e-7 relative is three orders above that rounding and four below the effect of a length computed with cancellation)."""
+    import bempp_cl.api as api
+    from vlib import symgrid as SG
+
+    warnings.simplefilter("ignore")
+    g0 = Z.grid_with_domains(gridname)
+    g1 = SG.make_grid(g0.vertices + np.array([[8.3e5], [-6.1e5], [3.7e5]]), g0.elements, g0.domain_indices)
+    par = Z.params(4, 4)
+    failing, worst = {}, 0.0
+    for name, primal, dual in MIXED:
+        out = []
+        for g in (g0, g1):
+            p = api.function_space(g, primal[0], primal[1], **primal[2])
+            d = api.function_space(g, dual[0], dual[1], **dual[2])
+            db = d if d.is_barycentric else d.barycentric_representation()
+            A = api.operators.boundary.sparse.identity(p, p, d, parameters=par).weak_form()
+            A = A.to_dense() if hasattr(A, "to_dense") else np.asarray(A.A.todense() if hasattr(A.A, "todense") else A.A)
+            out.append((BC.dense(db.dof_transformation), np.asarray(A)))
+        for what, a, b in (("coefficients", out[0][0], out[1][0]), ("mixed mass matrix", out[0][1], out[1][1])):
+            e = float(np.abs(a - b).max() / max(1e-300, np.abs(a).max())) if a.shape == b.shape else 1.0
+            worst = max(worst, e)
+            if e > 1e-7:
+                failing["%s: %s" % (name, what)] = e
+    return {"violates": bool(failing), "failing": failing, "worst": worst}
+
+
+def ob_position(gridname):
+    r = replay_position(gridname)
+    if r["violates"]:
+        return violated("dual / BC / RBC spaces on %s translated by (8.3e5, -6.1e5, 3.7e5) differ from those on the original grid: %s" % (gridname, r["failing"]),
+                        witness={"grid": gridname, "failing": r["failing"]}, signature="position/" + gridname,
+                        replay={"callable": "checks.c10:replay_position", "kwargs": {"gridname": gridname}, "confirmed": True, "result": r})
+    return held("7 pairs: coefficients and mixed mass matrices agree to %.1e" % r["worst"])
+
+
 def replay_bc_restriction(kind):
     """BC / RBC on a part of the grid (default options: truncated at the segment edge) are the whole-grid functions of the interior edges of the part, restricted to it -
     whether the part is selected by `support_elements` on an unlabelled grid or by `segments` on a labelled copy: the barycentric coefficients on the elements of the part
@@ -566,6 +604,7 @@ def main():
             run.add("bc-divergence-pattern[%s %s]" % (mesh, kind), "bounded", ob_bc_divergence, mesh, kind, 1)
     for kind in ("BC", "RBC"):
         run.add("bc-restriction[refined octa, cap, %s]" % kind, "bounded", ob_bc_restriction, kind)
+    run.add("position[octa translated by (8.3e5, -6.1e5, 3.7e5): coefficients + mixed mass matrices]", "bounded", ob_position, "octa")
     run.add("mixed-mass[octa P1 x DUAL0 segments]", "bounded", ob_mixed, "octa", "P1 x DUAL0", ("P", 1, {}), ("DUAL", 0, {}), (2,))
     run.add("mixed-mass[octa DP0 x DUAL1 segments]", "bounded", ob_mixed, "octa", "DP0 x DUAL1", ("DP", 0, {}), ("DUAL", 1, {}), (2,))
     run.add("mixed-mass[octa SNC x BC segments]", "bounded", ob_mixed, "octa", "SNC x BC", ("SNC", 0, {}), ("BC", 0, {}), (2,))
